@@ -122,7 +122,7 @@ def kind_name(rng, fam, nins):
 
 # ------------------------------------------------------------------------------------------------
 
-def gen_net(rng, n_in=None, n_gates=None, n_ff=None, n_out=None, style=None, feats=(), xor_rich=False, max_gates=60):
+def gen_net(rng, n_in=None, n_gates=None, n_ff=None, n_out=None, style=None, feats=(), xor_rich=False, max_gates=60, wide=None):
     """Random net. `feats` is a set of optional hostile features:
     'unconn_in' (unconnected input pins, any position), 'unconn_out' (gates without output line),
     'ff_no_d' (state element with unconnected data pin), 'out_read' (bench style outputs also read internally),
@@ -160,6 +160,7 @@ def gen_net(rng, n_in=None, n_gates=None, n_ff=None, n_out=None, style=None, fea
                 sigs.append(s)
         net['ffs'].append(ff)
     fams = list(VAR_FAMS) + list(FIX_FAMS) + ['INV', 'BUF', 'ISOLOR']
+    layer_start, prev_layer = 0, []
     for g in range(n_gates):
         if xor_rich and rng.random() < 0.6:
             fam = rng.choice(['XOR', 'XNOR', 'XOR'])
@@ -179,11 +180,18 @@ def gen_net(rng, n_in=None, n_gates=None, n_ff=None, n_out=None, style=None, fea
             n = 1
         # operand choice biased towards recent signals (depth) with some old ones (reconvergence, fan-out)
         ins = []
-        for _ in range(n):
-            if rng.random() < 0.6 and len(sigs) > 3:
-                ins.append(rng.choice(sigs[-6:]))
-            else:
-                ins.append(rng.choice(sigs))
+        if wide:
+            # layered: the gates of one layer read only signals of the layer before (layer 0: the sources), giving levels `wide` operations wide
+            if g % wide == 0:
+                prev_layer = list(sigs[layer_start:]) if g else list(sigs)
+                layer_start = len(sigs)
+            ins = [rng.choice(prev_layer) for _ in range(n)]
+        else:
+            for _ in range(n):
+                if rng.random() < 0.6 and len(sigs) > 3:
+                    ins.append(rng.choice(sigs[-6:]))
+                else:
+                    ins.append(rng.choice(sigs))
         if 'unconn_in' in feats and n >= 2 and rng.random() < 0.15:
             p = rng.randrange(n)
             if fam in VAR_FAMS and p == n - 1:
